@@ -24,7 +24,7 @@ int main(int argc, char** argv) {
     if (argc < 2) { fprintf(stderr, "usage: vh <driver>|--list ...\n"); return 2; }
     std::string dname = argv[1];
     if (dname == "--list") { for (auto& d : registry()) printf("%s\n", d.name); return 0; }
-    uint64_t seed = 1; std::string tier = "quick", out; long from = 0, to = -1, only = -1; bool verbose = false, count_only = false;
+    uint64_t seed = 1; std::string tier = "quick", out; long from = 0, to = -1, only = -1, stride = 1; bool verbose = false, count_only = false;
     for (int i = 2; i < argc; ++i) {
         std::string a = argv[i];
         auto nxt = [&]() -> std::string { if (i + 1 >= argc) { fprintf(stderr, "missing value for %s\n", a.c_str()); exit(2); } return argv[++i]; };
@@ -33,6 +33,7 @@ int main(int argc, char** argv) {
         else if (a == "--from") from = atol(nxt().c_str());
         else if (a == "--to") to = atol(nxt().c_str());
         else if (a == "--only") only = atol(nxt().c_str());
+        else if (a == "--stride") stride = std::max(1L, atol(nxt().c_str()));
         else if (a == "--out") out = nxt();
         else if (a == "--verbose") verbose = true;
         else if (a == "--ncases") count_only = true;
@@ -55,8 +56,10 @@ int main(int argc, char** argv) {
 
     boost::mpi::environment env(argc, argv);
 
-    for (long k = from; k < to; ++k) {
+    const bool err_markers = getenv("VH_STDERR_MARKERS") != nullptr;
+    for (long k = from; k < to; k += stride) {
         emit("BEGIN " + std::to_string(k));
+        if (err_markers) { fflush(stderr); fprintf(stderr, "\nVH-BEGIN %ld\n", k); fflush(stderr); }
         Ctx c; c.seed = seed; c.tier = tier; c.driver = dname; c.k = k; c.replay = (only >= 0);
         c.rng = Rng::for_case(seed, dname, (uint64_t)k);
         try {
